@@ -19,13 +19,17 @@ RULE = ("Hypothesis-generated trees (depth 1..3, fan-out 1..3) of CopyStreamResu
         "the process time zone (TZ) is a generated dimension. "
         "The event sequence may be empty; frozensets are built per call and dropped after it (so an address can "
         "come back); besides the one bracketing run, extra startTestRun / stopTestRun calls are interleaved "
-        "(second run, double start, status after stop) and every sink must see the very same sequence of "
-        "calls; a filled-in timestamp must lie in the clock window of the call that produced it; the "
+        "(a second or third run, an empty run, a run left open; always within the documented protocol: no "
+        "status call outside a run, no start inside one, no stop outside one) and every sink must see the "
+        "very same sequence of calls; a filled-in timestamp must lie in the clock window of the call that produced it; the "
         "StreamTagger constructor's own arguments are compared before/after construction, the caller's tag sets "
         "once more at the end of the case; what a tagger "
         "delivers as tags is None or a set (collections.abc.Set); a queue's routing code may be '' or None; "
-        "queues may be bounded (a blocking put lets the consumer run, a non-blocking or timed put on a full "
-        "queue raises queue.Full); one target may be listed twice in a target list (it then receives every "
+        "queues may be bounded (a blocking put, timed or not, lets the consumer run and goes through; a "
+        "non-blocking put on a full queue raises queue.Full); a StreamFailFast must fire for a history with a "
+        "fail / uxsuccess event, at most once per such event it is told about, and never otherwise; a filled-in "
+        "timestamp may be given to the millisecond or second; test_status ranges over the values status() "
+        "documents; one target may be listed twice in a target list (it then receives every "
         "call twice); a small exhaustive grid pins each of these at every seed. "
         "Non-trivial: fan-out >= 2 below a "
         "StreamTagger, or tags supplied as set/frozenset to a tree containing a tagger, or a queue in the "
@@ -42,6 +46,27 @@ ASSUMPTIONS = [
     "the dict StreamToQueue puts on the queue is replayed with child.status(**item): its exact key set is "
     "not asserted; the 'result' entry of a startTestRun / stopTestRun item must be the StreamToQueue "
     "(its docstring)",
+    "StreamTagger takes the value its add / discard arguments have when it is constructed: the caller changing "
+    "those sets afterwards does not change what the tagger does (the statement's 'independent of ... sibling "
+    "decorators' read for two taggers built from one set; a tagger that keeps the caller's set is reported)",
+    "only the documented run protocol is exercised: every status call lies between a startTestRun and the next "
+    "stopTestRun (StreamResult's 'typical use'; stopTestRun: 'no more test updates will be received'); runs may "
+    "repeat, be empty, and the last one may be left open",
+    "'the failure callback fired for fail and uxsuccess only': it fires if and only if such an event arrived, "
+    "and at most once per arrival; firing once per failing event and firing for the first one only are both "
+    "accepted",
+    "StreamToQueue waits for room in a bounded queue (a blocking put, with or without a timeout; the harness's "
+    "consumer always makes room): one that gives up at once (put_nowait) and lets queue.Full reach the caller "
+    "loses an event and is reported",
+    "'a supplied timestamp is never changed' is read literally: the very value arrives, also when it is naive or "
+    "in another zone than UTC (rendering it in UTC - the same instant, == the original - is reported; the "
+    "comparison is by == and isoformat())",
+    "a routing code of '' is a routing code: 'otherwise it is prefixed' gives '/x' (only None means 'nothing "
+    "to prefix'); an event's route code '' is not None either and is prefixed like any other",
+    "a filled-in timestamp may have millisecond or whole-second resolution: the clock windows are widened to "
+    "the resolution the delivered value visibly has",
+    "test_status values are the ones StreamResult.status documents (None, inprogress, exists, xfail, uxsuccess, "
+    "success, fail, skip); 'unknown' (FINAL_STATES) is not generated",
     "that a dropped temporary frozenset's address is reused by the next one is a CPython detail: it only "
     "affects sensitivity (identity-keyed caches), never the verdict on a correct tree",
 ]
@@ -85,7 +110,9 @@ def _has(tree, kinds):
 TREE = st.one_of(node(1), node(2), node(3))
 NODE1 = node(1)
 ROUTE11 = st.one_of(streams.ROUTE, st.just(""))       # "" is not None: StreamToQueue documents "otherwise it is prefixed"
-EVENTS = st.lists(streams.event(routes=ROUTE11, stamps=(None, None, 0, 1, 2, "tz", "tz", "future", "usec", "naive")), min_size=0, max_size=8)
+# the statuses status() documents ("unknown" is listed for FINAL_STATES only; to these decorators it is one more non-failure)
+STATUSES11 = streams.INTERIM + streams.INTERIM + tuple(x for x in streams.FINAL if x != "unknown")
+EVENTS = st.lists(streams.event(routes=ROUTE11, statuses=STATUSES11, stamps=(None, None, 0, 1, 2, "tz", "tz", "future", "usec", "naive")), min_size=0, max_size=8)
 # calls of the run protocol besides the bracket: {"at": k, "op": ...} is made before the k-th status call
 # (k == number of calls: after the last one, before the closing stopTestRun; beyond: after it)
 EXTRA = st.one_of(st.just([]), st.just([]), st.just([]),
@@ -116,9 +143,9 @@ class QueueItemError(Exception):
 
 class HQueue(queue_mod.Queue):
     """queue.Queue whose put() honours block / timeout without a second thread: while a blocking put
-    waits on a full queue the consumer gets its turn; a non-blocking or timed put on a full queue meets
-    a consumer that is a moment too late: it gets queue.Full (without waiting), and the consumer runs
-    right afterwards (so a producer that tries again gets through)."""
+    (with or without a timeout: the consumer is alive, so any wait is long enough) waits on a full queue
+    the consumer gets its turn and the put goes through; a non-blocking put on a full queue gets
+    queue.Full, and the consumer runs right afterwards (so a producer that tries again gets through)."""
 
     def __init__(self, maxsize=0):
         super().__init__(maxsize)
@@ -127,7 +154,7 @@ class HQueue(queue_mod.Queue):
     def put(self, item, block=True, timeout=None):
         if self.maxsize > 0 and self.full():
             self.consume()
-            if not block or timeout is not None:
+            if not block:
                 raise queue_mod.Full
         super().put(item, block, timeout)
 
@@ -252,6 +279,16 @@ def drain(queues):
 NOW = "NOW"
 
 
+def _coarse(t, like, up=False):
+    """t rounded down (up) to the resolution the value 'like' visibly has (whole seconds, milliseconds, or
+    microseconds): "the current UTC time" need not be given to the microsecond."""
+    if like.microsecond % 1000:
+        return t
+    unit = 1000 if like.microsecond else 1000000
+    down = t - datetime.timedelta(microseconds=t.microsecond % unit)
+    return down + datetime.timedelta(microseconds=unit) if up and down != t else down
+
+
 def model_path(ev, path):
     ev = dict(ev)
     for step in path:
@@ -288,7 +325,10 @@ def run_case(spec):
 
 
 def op_list(spec):
-    """The calls made on the root, in order: ("startTestRun",) / ("stopTestRun",) / ("status", index of the call)."""
+    """The calls made on the root, in order: ("startTestRun",) / ("stopTestRun",) / ("status", index of the call).
+    What the spec asks for is brought into the documented run protocol (startTestRun, status..., stopTestRun,
+    any number of times; the last run may be left open): a startTestRun inside a run and a stopTestRun outside
+    one are dropped, a status call outside a run is preceded by a startTestRun."""
     n = len(spec["calls"])
     extra = sorted(((min(e["at"], n + 1), j, e["op"]) for j, e in enumerate(spec.get("extra") or ())))
     ops = []
@@ -300,7 +340,21 @@ def op_list(spec):
             ops.append(("status", i))
         elif i == n and spec["bracket"] == "run":
             ops.append(("stopTestRun",))
-    return ops
+    conforming, running = [], False
+    for op in ops:
+        if op[0] == "startTestRun":
+            if running:
+                continue
+            running = True
+        elif op[0] == "stopTestRun":
+            if not running:
+                continue
+            running = False
+        elif not running:
+            conforming.append(("startTestRun",))
+            running = True
+        conforming.append(op)
+    return conforming
 
 
 def _run_case(spec):
@@ -411,9 +465,10 @@ def _run_case(spec):
                     tsv = g[f]
                     lo, hi = window[i][0], (window[i][1] if in_call else t_end)
                     if not (isinstance(tsv, datetime.datetime) and tsv.tzinfo is not None
-                            and tsv.utcoffset() == datetime.timedelta(0) and t_start <= tsv <= t_end):
+                            and tsv.utcoffset() == datetime.timedelta(0)
+                            and _coarse(t_start, tsv) <= tsv <= _coarse(t_end, tsv, True)):
                         vs.append(V("field", "timestamp-fill", "missing timestamp filled with %r (not a current UTC datetime)" % (tsv,)))
-                    elif not lo <= tsv <= hi:
+                    elif not _coarse(lo, tsv) <= tsv <= _coarse(hi, tsv, True):
                         vs.append(V("field", "timestamp-fill-not-current", "event %d: missing timestamp filled with %r, the call ran from %r to %r" % (i, tsv, lo, hi)))
                 elif f == "test_tags" and tagged and not w[f]:
                     if g[f]:
@@ -435,7 +490,8 @@ def _run_case(spec):
                 break
     nfail = sum(1 for c in spec["calls"] if c["ev"]["test_status"] in ("fail", "uxsuccess"))
     for ff in ffs:
-        if ff["count"] != nfail * ff["mult"]:
+        # fired for every failing event it was told about, or only for the first one(s): both are "fail fast"
+        if (ff["count"] > 0) != (nfail > 0) or ff["count"] > nfail * ff["mult"]:
             vs.append(V("failfast", "callback-count", "failure callback fired %d times for %d fail/uxsuccess events (each due %d time(s))" % (ff["count"], nfail, ff["mult"])))
 
     def fan_below_tagger(t, below=False):
@@ -495,13 +551,17 @@ def _enum_edges():
             yield _spec(_unary("tagger", {"t": "copy", "children": [S, S]}, add=["t"], discard=["u"]), evs, npos=npos, bracket="none")
     yield _spec(_unary("tagger"), [_ev(frozenset(["t", "u"])), _ev(frozenset(["u", "v"])), _ev(frozenset(["v", "w"]))])
     # a run without events; the run protocol beyond one bracket
-    protocols = [("run", []), ("none", [{"at": 0, "op": "startTestRun"}]), ("none", [{"at": 9, "op": "stopTestRun"}]),
-                 ("run", [{"at": 1, "op": "stopTestRun"}, {"at": 1, "op": "startTestRun"}]),      # two runs
-                 ("run", [{"at": 0, "op": "startTestRun"}]),                                        # started twice
-                 ("run", [{"at": 9, "op": "stopTestRun"}]),                                         # stopped twice
-                 ("run", [{"at": 1, "op": "stopTestRun"}]),                                         # status after stopTestRun
-                 ("none", [{"at": 1, "op": "startTestRun"}]),                                       # status before startTestRun
-                 ("run", [{"at": 9, "op": "startTestRun"}, {"at": 9, "op": "stopTestRun"}])]        # an empty second run
+    # (all within the documented protocol; op_list would bring anything else into it)
+    start, stop = (lambda at: {"at": at, "op": "startTestRun"}), (lambda at: {"at": at, "op": "stopTestRun"})
+    protocols = [("run", []),
+                 ("none", [start(0)]),                                        # one run, left open
+                 ("run", [stop(1), start(1)]),                                # two runs
+                 ("run", [stop(0), start(0)]),                                # an empty run first
+                 ("run", [start(9), stop(9)]),                                # an empty second run
+                 ("run", [start(9)]),                                         # a second run, left open
+                 ("none", [start(0), stop(1), start(1)]),                     # two runs, the second left open
+                 ("run", [stop(0), start(0), stop(1), start(1)]),             # three runs
+                 ("run", [stop(1), start(1), start(9), stop(9)])]             # two runs and an empty third
     for kind in kinds:
         for inner in (S, {"t": "copy", "children": [S, FF]}):
             for drain_ in ("each", "end"):
